@@ -330,7 +330,7 @@ def o5_merge_best(F, r):
     it = oe.Interp(F, m, {1: oe.sym("decomposed"), 2: oe.ref(oe.sym("orig")), 3: oe.sym("acc")}, fresh=True)
     n = 0
     for p in it.explore():
-        cmp_ = [a for a in p.assumptions if len(a) == 3 and a[2] in "LEG"]
+        cmp_ = [a for a in p.assumptions if len(a) == 3 and isinstance(a[2], str) and a[2] in "LEG" and a[0] != "switch"]
         if not cmp_:
             r.fail("merge_best", "no comparison of the decomposed and the original partial solution on this path (not decidable)", F.loc(m))
             continue
